@@ -73,6 +73,10 @@ func probeTypes() []octosql.Type {
 		tList(octosql.Int), tList(octosql.String), tList(tUnion(octosql.Null, octosql.Int)),
 		tStruct(octosql.StructField{Name: "x", Type: octosql.Int}, octosql.StructField{Name: "y", Type: octosql.String}),
 		tTuple(octosql.Int, octosql.String), tTuple(octosql.Int, octosql.Int, octosql.Int),
+		// composite element types: the output type of [] (NULL + element) and of nullable strict
+		// calls is a TypeSum over a union that already holds a list / an object
+		tList(tUnion(octosql.String, tList(octosql.Float))), tList(tList(octosql.String)),
+		tList(tUnion(octosql.Null, tStruct(octosql.StructField{Name: "x", Type: tList(octosql.Int)}))),
 	}
 }
 
